@@ -80,7 +80,7 @@ class C18(SimpleProperty):
         allu = [u for g in groups for u in g]
         for _ in range(3):
             r = rng.random()
-            ident = "".join(rng.choice(SAFE) for _ in range(rng.randint(1, 4)))
+            ident = "".join(rng.choice(SAFE) for _ in range(rng.choice([0, 1, 2, 3, 4])))   # also exactly a URI prefix
             if r < 0.8:
                 qs.append(rng.choice(allu) + ident)
             else:
